@@ -261,3 +261,218 @@ Proof.
         -- apply (in_map (HyperBall.get L dflt (sync_iter L join dflt g t c0))). exact Hu.
         -- apply (IH u (Hwf _ _ Hu)). exists w. split; assumption.
 Qed.
+
+(** ** One iteration of the code *)
+Lemma nth_repeat_lt {A} (x d : A) n v : v < n -> nth v (repeat x n) d = x.
+Proof. revert v. induction n; intros v Hv; [lia|]. destruct v; cbn; [reflexivity|]. apply IHn. lia. Qed.
+
+Lemma existsb_false_filter {A} (f : A -> bool) l : existsb f l = false -> filter f l = [].
+Proof.
+  induction l as [|x l IH]; cbn; [reflexivity|].
+  destruct (f x); cbn; [discriminate|exact IH].
+Qed.
+
+Lemma memb_In v l : memb v l = true <-> In v l.
+Proof.
+  unfold memb. rewrite existsb_exists. split.
+  - intros [x [Hx He]]. apply Nat.eqb_eq in He. subst. exact Hx.
+  - intros H. exists v. split; [exact H | apply Nat.eqb_refl].
+Qed.
+
+Section Step.
+  Variable L : Type.
+  Variable join : L -> L -> L.
+  Variable eqb : L -> L -> bool.
+  Variable dflt : L.
+  Hypothesis SL : semilattice join.
+  Hypothesis EQ : eqb_spec eqb.
+
+  Notation get := (get L dflt).
+  Notation snode := (sync_node L join dflt).
+  Notation sstep := (sync_step L join dflt).
+
+  Lemma merged_eq_snode g c md v :
+    (forall w, In w (succs g v) -> getb md w = false -> join (get c v) (get c w) = get c v) ->
+    merged L join dflt g c md v = snode g c v.
+  Proof.
+    intros H. unfold merged, sync_node. apply (bigjoin_filter L join SL).
+    intros w Hw Hk. unfold live in Hk. destruct (Nat.eqb w v) eqn:E.
+    - apply Nat.eqb_eq in E. subst. apply (proj2 (proj2 SL)).
+    - cbn in Hk. apply H; assumption.
+  Qed.
+
+  Lemma merged_nolive g c md v : anylive g md v = false -> merged L join dflt g c md v = get c v.
+  Proof.
+    intros H. unfold merged. unfold anylive in H. rewrite (existsb_false_filter _ _ H). reflexivity.
+  Qed.
+
+  Lemma eqb_refl a : eqb a a = true.
+  Proof. apply EQ. reflexivity. Qed.
+
+  Lemma step_nodes ext g s c scan chk :
+    ainv join dflt ext g s c -> skip_ok ext g (a_mod L s) scan chk ->
+    forall v, v < length c ->
+      node_value L join eqb dflt ext g s scan chk v = snode g c v /\
+      node_mod L join eqb dflt g s scan chk v = negb (eqb (snode g c v) (get c v)).
+  Proof.
+    intros [Hc [Hml [Hpp Habs]]] [Hsk1 Hsk2] v Hv.
+    assert (Hm : merged L join dflt g c (a_mod L s) v = snode g c v)
+      by (apply merged_eq_snode; intros w Hw Hmw; apply (Habs v w Hv Hw Hmw)).
+    assert (Hstale : (if ext then get c v else get (a_next L s) v) = get c v
+                     \/ (ext = false /\ getb (a_mod L s) v = true)).
+    { destruct ext; [left; reflexivity|].
+      destruct (getb (a_mod L s) v) eqn:Hmv; [right; split; reflexivity|].
+      left. apply Hpp; [reflexivity | exact Hv | exact Hmv]. }
+    unfold node_value, node_mod, emod. rewrite Hc. rewrite Hm.
+    destruct (scan v && chk v) eqn:Hsc.
+    - apply andb_prop in Hsc. destruct Hsc as [Hs Hk]. rewrite Hs, Hk. cbn [andb].
+      destruct (eqb (snode g c v) (get c v)) eqn:He.
+      + apply EQ in He. rewrite andb_false_r. cbn [orb negb]. split; [|reflexivity].
+        destruct Hstale as [Hst|[-> Hmv]].
+        * destruct (negb ext && getb (a_mod L s) v); [reflexivity | rewrite Hst; symmetry; exact He].
+        * rewrite Hmv. reflexivity.
+      + assert (Hal : anylive g (a_mod L s) v = true).
+        { destruct (anylive g (a_mod L s) v) eqn:Hal; [reflexivity|].
+          rewrite <- Hm in He. rewrite (merged_nolive g c _ v Hal) in He.
+          rewrite eqb_refl in He. discriminate. }
+        rewrite Hal. cbn. split; reflexivity.
+    - assert (Hal := Hsk1 v Hsc).
+      assert (Hsn : snode g c v = get c v) by (rewrite <- Hm; apply merged_nolive; exact Hal).
+      rewrite Hsn. rewrite eqb_refl. cbn [negb]. split; [|reflexivity].
+      destruct (scan v) eqn:Hs.
+      + cbn in Hsc. rewrite Hsc.
+        destruct Hstale as [Hst|[-> Hmv]].
+        * destruct (negb ext && getb (a_mod L s) v); [reflexivity | exact Hst].
+        * rewrite Hmv. reflexivity.
+      + destruct Hstale as [Hst|[He Hmv]]; [exact Hst|].
+        rewrite (Hsk2 He v Hs) in Hmv. discriminate.
+  Qed.
+
+  Lemma skip_sound_lemma ext g s c scan chk :
+    wf_graph g (length c) ->
+    ainv join dflt ext g s c -> skip_ok ext g (a_mod L s) scan chk ->
+    ainv join dflt ext g (astep L join eqb dflt ext g s scan chk) (sstep g c) /\
+    (forall v, v < length c ->
+       getb (a_mod L (astep L join eqb dflt ext g s scan chk)) v
+       = negb (eqb (get (sstep g c) v) (get c v))).
+  Proof.
+    intros [Hlen Hwf] Hinv Hsk.
+    pose proof (step_nodes ext g s c scan chk Hinv Hsk) as Hn.
+    destruct Hinv as [Hc [Hml [Hpp Habs]]].
+    assert (Hmod : forall v, v < length c ->
+               getb (a_mod L (astep L join eqb dflt ext g s scan chk)) v
+               = negb (eqb (get (sstep g c) v) (get c v))).
+    { intros v Hv. cbn [astep a_mod]. unfold getb. rewrite Hc. rewrite tab_nth by exact Hv.
+      rewrite (sstep_get L join dflt g c v Hv). apply (proj2 (Hn v Hv)). }
+    assert (Hcurr : a_curr L (astep L join eqb dflt ext g s scan chk) = sstep g c).
+    { cbn [astep a_curr]. rewrite Hc. unfold sync_step. apply tab_ext. intros v Hv. apply (proj1 (Hn v Hv)). }
+    split; [|exact Hmod].
+    split; [exact Hcurr|]. split.
+    { cbn [astep a_mod]. rewrite tab_length. rewrite Hc. symmetry. apply sstep_length. }
+    rewrite (sstep_length L join dflt g c). split.
+    - intros _ v Hv Hmv. cbn [astep a_next]. rewrite Hc.
+      rewrite (Hmod v Hv) in Hmv. apply negb_false_iff in Hmv. apply EQ in Hmv. symmetry. exact Hmv.
+    - intros v w Hv Hw Hmw.
+      assert (Hwn : w < length c) by (apply (Hwf v w Hw)).
+      rewrite (Hmod w Hwn) in Hmw. apply negb_false_iff in Hmw. apply EQ in Hmw.
+      rewrite Hmw. rewrite (sstep_get L join dflt g c v Hv).
+      rewrite (proj1 (proj2 SL)). apply (snode_ge_succ L join dflt SL). exact Hw.
+  Qed.
+
+  Lemma init_ainv ext g c0 :
+    wf_graph g (length c0) ->
+    ainv join dflt ext g (mkA L c0 (repeat dflt (length c0)) (repeat true (length c0))) c0.
+  Proof.
+    intros [Hlen Hwf]. split; [reflexivity|]. split; [apply repeat_length|]. split.
+    - intros _ v Hv Hmv. cbn [a_mod] in Hmv. unfold getb in Hmv.
+      rewrite nth_repeat_lt in Hmv by exact Hv. discriminate.
+    - intros v w Hv Hw Hmw. cbn [a_mod] in Hmw. unfold getb in Hmw.
+      rewrite nth_repeat_lt in Hmw by (apply (Hwf v w Hw)). discriminate.
+  Qed.
+
+  Lemma arun_correct ext g ds : forall s c,
+    wf_graph g (length c) -> ainv join dflt ext g s c -> legal join eqb dflt ext g s ds ->
+    a_curr L (arun join eqb dflt ext g s ds) = sync_iter L join dflt g (length ds) c.
+  Proof.
+    induction ds as [|d r IH]; intros s c Hwf Hinv Hleg.
+    - cbn. apply Hinv.
+    - cbn [arun length]. destruct Hleg as [Hsk Hleg].
+      destruct (skip_sound_lemma ext g s c (fst d) (snd d) Hwf Hinv Hsk) as [Hinv' _].
+      rewrite (siter_shift L join dflt g (length r) c).
+      apply IH; [rewrite (sstep_length L join dflt g c); exact Hwf | exact Hinv' | exact Hleg].
+  Qed.
+
+  Lemma stable_code_lemma ext g s c scan chk :
+    ainv join dflt ext g s c -> (forall v, getb (a_mod L s) v = false) ->
+    a_curr L (astep L join eqb dflt ext g s scan chk) = c /\
+    (forall v, getb (a_mod L (astep L join eqb dflt ext g s scan chk)) v = false).
+  Proof.
+    intros [Hc [Hml [Hpp Habs]]] Hall.
+    assert (Hal : forall v, anylive g (a_mod L s) v = false).
+    { intros v. unfold anylive. destruct (existsb (live (a_mod L s) v) (succs g v)) eqn:E; [|reflexivity].
+      apply existsb_exists in E. destruct E as [w [_ Hl]]. unfold live in Hl. rewrite Hall in Hl.
+      rewrite andb_false_r in Hl. discriminate. }
+    assert (Hem : forall v, emod L join eqb dflt g (a_curr L s) (a_mod L s) v = false)
+      by (intros v; unfold emod; rewrite Hal; reflexivity).
+    split.
+    - cbn [astep a_curr]. rewrite Hc.
+      transitivity (tab (length c) (fun v => nth v c dflt)); [|apply tab_self].
+      apply tab_ext. intros v Hv.
+      unfold node_value. rewrite Hem, Hall. rewrite andb_false_r. cbn [orb].
+      assert (Hst : (if ext then get (a_curr L s) v else get (a_next L s) v) = nth v c dflt).
+      { destruct ext; [rewrite Hc; reflexivity|]. apply Hpp; [reflexivity | exact Hv | apply Hall]. }
+      rewrite Hst. destruct (scan v); [destruct (chk v)|]; reflexivity.
+    - intros v. cbn [astep a_mod]. unfold getb.
+      destruct (Nat.lt_ge_cases v (length (a_curr L s))) as [Hv|Hv].
+      + rewrite tab_nth by exact Hv. unfold node_mod. rewrite Hem. apply andb_false_r.
+      + apply tab_nth_over. exact Hv.
+  Qed.
+End Step.
+
+Theorem skip_sound : S_skip_sound.
+Proof.
+  intros L join eqb dflt ext g s c scan chk SL EQ Hwf Hinv Hsk. cbv zeta.
+  apply skip_sound_lemma; assumption.
+Qed.
+
+Theorem mode_independent : S_mode_independent.
+Proof.
+  intros L join eqb dflt ext g c0 ds SL EQ Hwf. cbv zeta. intros Hleg.
+  apply (arun_correct L join eqb dflt SL EQ ext g ds _ c0 Hwf); [|exact Hleg].
+  apply init_ainv. exact Hwf.
+Qed.
+
+Theorem stable_code : S_stable_code.
+Proof.
+  intros L join eqb dflt ext g s c scan chk SL EQ Hwf Hinv Hall. cbv zeta.
+  apply stable_code_lemma; assumption.
+Qed.
+
+(** ** Legal decisions from the bookkeeping *)
+Lemma anylive_true g md v :
+  anylive g md v = true -> exists w, In w (succs g v) /\ getb md w = true.
+Proof.
+  unfold anylive. intros H. apply existsb_exists in H. destruct H as [w [Hw Hl]].
+  unfold live in Hl. apply andb_prop in Hl. exists w. split; [exact Hw | apply Hl].
+Qed.
+
+Theorem systolic_legal : S_systolic_legal.
+Proof.
+  intros ext g gt md mbc [_ Htr] Hmark. split.
+  - intros v Hc. cbn in Hc. destruct (anylive g md v) eqn:Hal; [|reflexivity].
+    apply anylive_true in Hal. destruct Hal as [w [Hw Hmw]].
+    rewrite (Hmark w v Hmw) in Hc; [discriminate|]. apply Htr. exact Hw.
+  - intros _ v Hs. discriminate.
+Qed.
+
+Theorem local_legal : S_local_legal.
+Proof.
+  intros ext g gt md check [_ Htr] Hin. split.
+  - intros v Hc. rewrite andb_true_r in Hc. destruct (anylive g md v) eqn:Hal; [|reflexivity].
+    apply anylive_true in Hal. destruct Hal as [w [Hw Hmw]].
+    destruct (Hin w Hmw) as [_ Hp].
+    assert (Hv : In v check) by (apply Hp; apply Htr; exact Hw).
+    apply memb_In in Hv. rewrite Hv in Hc. discriminate.
+  - intros _ v Hs. destruct (getb md v) eqn:Hmv; [|reflexivity].
+    destruct (Hin v Hmv) as [Hv _]. apply memb_In in Hv. rewrite Hv in Hs. discriminate.
+Qed.
